@@ -17,6 +17,7 @@ import (
 	"strings"
 	"sync"
 	"sync/atomic"
+	"syscall"
 	"time"
 
 	"github.com/redis/rueidis/internal/util"
@@ -168,6 +169,13 @@ func installHooks() {
 			// The clean-up loop of a dead pipe spins with Gosched while callers are still registered. A spinning
 			// goroutine is never durably blocked and would freeze the fake clock, so under the simulator it polls
 			// once per fake millisecond instead.
+			if b := cleanupSpinBudget.Load(); b > 0 && cleanupSpins(obj, b) {
+				// opt-in (VerifCleanupSpinBudget): the first spins of a pipe are real ones. What the loop usually waits for
+				// is another goroutine of the same step that is runnable right now (the writer loop closing p.close, a
+				// caller that has its error and is about to deregister); whether the loop gets there first is decided by
+				// the Go runtime, and a fake millisecond spent on it makes that race visible in the event log.
+				return
+			}
 			time.Sleep(time.Millisecond)
 			return
 		}
@@ -240,6 +248,51 @@ func installHooks() {
 		}
 		return b
 	}
+}
+
+// cleanupSpinBudget > 0 lets every dead pipe spin that many times for real before it starts polling in fake time.
+var cleanupSpinBudget atomic.Int32
+var cleanupSpinCounts atomic.Pointer[sync.Map] // pipe -> *spinState, replaced at the start of every run
+
+type spinState struct {
+	n     atomic.Int32
+	since atomic.Int64 // real (not simulated) time of the first spin, ns
+}
+
+// realNanos reads the machine's clock: package time is simulated inside a bubble, the system call is not.
+func realNanos() int64 {
+	var tv syscall.Timeval
+	if syscall.Gettimeofday(&tv) != nil {
+		return 0
+	}
+	return tv.Sec*1e9 + tv.Usec*1e3
+}
+
+// cleanupSpins reports whether the clean-up loop of pipe obj should go on spinning for real: until it has spun
+// budget times AND 150 ms of real time have passed (on a loaded machine the goroutine it waits for may not get a
+// processor for a while).
+func cleanupSpins(obj any, budget int32) bool {
+	m := cleanupSpinCounts.Load()
+	if m == nil {
+		return false
+	}
+	c, _ := m.LoadOrStore(obj, new(spinState))
+	st := c.(*spinState)
+	n := st.n.Add(1)
+	if n == 1 {
+		st.since.Store(realNanos())
+	}
+	if n <= budget {
+		return true
+	}
+	if n&1023 == 0 || n == budget+1 {
+		if t0 := st.since.Load(); t0 != 0 && realNanos()-t0 < 150e6 {
+			return true
+		}
+		st.since.Store(0) // budget used up: this pipe polls in simulated time from now on
+		return false
+	}
+	return st.since.Load() != 0
 }
 
 // goroutine identities for lock waits: task goroutines register themselves; rueidis' own goroutines
@@ -420,6 +473,8 @@ func VerifSetSim(s *sched.Sim, seed uint64) {
 		muxRegReset(0)
 		richIdent.Store(false)
 		yieldFullIdentity.Store(false)
+		cleanupSpinBudget.Store(0)
+		cleanupSpinCounts.Store(&sync.Map{})
 	}
 	curSim.Store(s)
 }
@@ -450,6 +505,13 @@ func VerifPinAllParallelism(n int) {
 
 // VerifRichIdentities turns on connection- and goroutine-qualified identities at the queue hand-off yield sites.
 func VerifRichIdentities(on bool) { richIdent.Store(on) }
+// VerifCleanupSpinBudget lets the clean-up loop of every dead pipe spin n times for real (as it does outside the
+// simulator) before it falls back to polling once per fake millisecond. Call after VerifSetSim; 0 = off (default).
+func VerifCleanupSpinBudget(n int) { cleanupSpinBudget.Store(int32(n)) }
+
+// VerifQueueType selects the command queue of pipes created from now on in this run ("" = ring, "flowbuffer").
+// Call after VerifSetSim (which resets it to the default).
+func VerifQueueType(t string) { queueTypeFromEnv = t }
 
 // VerifCoarseExtra parks additional yield sites (nil = default set).
 func VerifCoarseExtra(m map[string]bool) {
